@@ -7,7 +7,7 @@ import ast
 import hashlib
 import os
 
-from . import AnalysisError
+from . import AnalysisError, alpha
 from .astutil import (FUNC_NODES, MUTATORS, set_parents, dotted, call_name, walk_local_body, walk_local,
                       enclosing, ancestors)
 
@@ -78,6 +78,7 @@ class Program:
         self.classes = {}
         self._node_func = {}
         self.consulted = set()
+        self.renamed = {}          # module -> {unit: {current local name: reference name}} (lbsa.alpha)
         self._attr_write_index, self._call_index, self._ref_index = {}, {}, {}
         for pkg in packages:
             self._load_tree(os.path.join(self.root, pkg))
@@ -119,6 +120,9 @@ class Program:
                     tree = ast.parse(src, filename=path)
                 except (SyntaxError, UnicodeDecodeError, OSError) as e:
                     raise AnalysisError(f"cannot parse {rel}: {e}")
+                ren = alpha.normalise(name, tree, raw)
+                if ren:
+                    self.renamed[name] = ren
                 self.modules[name] = Module(name, path, rel, src, tree)
 
     def _index_module(self, m):
